@@ -2,6 +2,9 @@
 
 pub mod c03;
 pub mod c04;
+pub mod c05;
+pub mod c06;
+pub mod c07;
 pub mod c11;
 
 use crate::report::Report;
@@ -61,7 +64,3 @@ pub fn pin_clock(now: u64) {
     octo_squirrel::verif::set_thread_clock(Some(now as i64));
 }
 
-/// Serialises everything that reaches `codec::shadowsocks::udp::get_cipher` (a process-global cache mutated
-/// through a shared reference) in checks that are *not* about concurrency: the harness runs cases on many
-/// threads, and C09 alone owns the question whether that cache is safe to share.
-pub static UDP2022_LOCK: std::sync::Mutex<()> = std::sync::Mutex::new(());
